@@ -249,13 +249,15 @@ func (w *binaryWriter) WriteTimestamp(val Timestamp) error {
 // WriteSymbol writes a symbol value given a SymbolToken.
 func (w *binaryWriter) WriteSymbol(val SymbolToken) error {
 	var id uint64
-	if val.LocalSID != SymbolIDUnknown {
-		id = uint64(val.LocalSID)
-	} else if val.Text != nil {
+	if val.Text != nil {
+		// The text identifies the symbol; a local SID on the token belongs to the
+		// symbol table of wherever the token came from, not to this writer's.
 		id, w.err = w.resolveFromSymbolTable("Writer.WriteSymbol", *val.Text)
 		if w.err != nil {
 			return w.err
 		}
+	} else if val.LocalSID != SymbolIDUnknown {
+		id = uint64(val.LocalSID)
 	} else {
 		return &UsageError{"Writer.WriteSymbol", "symbol token without defined text or symbol id is invalid"}
 	}
@@ -510,14 +512,14 @@ func (w *binaryWriter) beginValue(api string) error {
 		}
 
 		var id uint64
-		if name.LocalSID != SymbolIDUnknown {
-			id = uint64(name.LocalSID)
-		} else if name.Text != nil {
+		if name.Text != nil {
 			var err error
 			id, err = w.resolveFromSymbolTable(api, *name.Text)
 			if err != nil {
 				return err
 			}
+		} else if name.LocalSID != SymbolIDUnknown {
+			id = uint64(name.LocalSID)
 		} else {
 			return &UsageError{api, "field name symbol token does not have defined text or symbol id."}
 		}
